@@ -119,14 +119,14 @@ def run(tier, seed):
         return {"trace": trace, "pin": pin, "rc": rc, "info": info, "stderr": se[-1500:], "prog": pf}
     try:
         res = v.parallel_map(one, list(enumerate(groups)), jobs=8)
-        ok = collect(PROP, res, rd, ["Linearizable"], viol, st)
+        ok = collect(PROP, res, rd, ["Linearizable", "SourceKept"], viol, st)
         free = []
         for i in range(3 if tier == "quick" else 16):
             free.append(("free_%d" % i, ["--seed", str(rng.randrange(1 << 30)), "--threads", "3", "--ops", "20",
                                          "--keys", "2", "--rounds", "6", "--pers", "1", "--blocks", "28",
                                          "--cache", str(i % 2), "--pinout", os.path.join(rd, "free_%d.pin.ndjson" % i)]))
         fres = ce.run_free(fxv, rd, free)
-        okf = collect(PROP, fres, rd, ["Linearizable"], viol, st)
+        okf = collect(PROP, fres, rd, ["Linearizable", "SourceKept"], viol, st)
     finally:
         import shutil
         shutil.rmtree(shm, ignore_errors=True)
@@ -181,7 +181,7 @@ def replay(path):
             print("VIOLATION property=C08 replay=%s" % path)
             return 1
         return 0
-    r = ce.validate(rd, path, ["Linearizable"])
+    r = ce.validate(rd, path, ["Linearizable", "SourceKept"])
     if r.violation:
         idx, fl, hist = ce.explain(r, path)
         print("rejected flags=%s at %s: %s" % (fl, idx, ce.brief(hist)))
